@@ -22,8 +22,8 @@ def bounded(tier, seed):
 
 MANIFEST = dict(
     category="other",
-    text='Contract-based proof of the search-loop clauses on the real MinFlowDecompCycles.solve + bounded comparison with an exact walk-enumeration oracle on tiny digraphs, subset constraints, and scaling by common factors.',
+    text='Contract-based proofs on the real source: the ENCODERS of the walk model behind MinFlowDecompCycles (flow explanation with multiplicities; subset constraints), the search-loop clauses of MinFlowDecompCycles.solve + bounded comparison with an exact walk-enumeration oracle on tiny digraphs, subset constraints, scale factors.',
     design_ref="DESIGN.md section 3 / C04",
     note='Minimality is NOT proved. Known open finding D17 (repetition cap from flow values breaks scale invariance) is listed in known_findings.json.',
-    technique='contract-based deductive verification of the search loop (PyVC) + bounded runtime-contract check vs exact walk oracle',
+    technique='contract-based deductive verification of encoders and the search loop (PyVC) + bounded runtime-contract check vs exact walk oracle',
     engine='pyvc+rc')
